@@ -169,6 +169,14 @@ func c08Retained(p rtp.Payloader) ([][]byte, bool) {
 // c08Instance runs one instance twin pair over the inputs.
 func c08Instance(c *fw.Ctx, kind c08Kind, mtu int, inputs [][]byte, inKinds []string) {
 	a, b := kind.mk(), kind.mk()
+	if kind.codec == "vp8" || kind.codec == "vp9" {
+		// instances that have already sent frames: descriptor sizes change with the running picture id (7 -> 15 bit at 128)
+		warm := []int{0, 0, 126, 127, 128}[len(inputs)%5]
+		for w := 0; w < warm; w++ {
+			a.Payload(1200, []byte{0x82, 0x49, 0x83, 0x42, 0x00})
+			b.Payload(1200, []byte{0x82, 0x49, 0x83, 0x42, 0x00})
+		}
+	}
 	var callerMem []memRange
 	var keepAlive [][]byte // the caller keeps its buffers: their memory must not be recycled while ranges are compared
 	var keptA [][][]byte   // fragments returned by A, with pristine copies
@@ -258,6 +266,26 @@ func c08Instance(c *fw.Ctx, kind c08Kind, mtu int, inputs [][]byte, inKinds []st
 				if overlaps(fr.lo, fr.hi, m.lo, m.hi) {
 					c.Fail("C08/"+kind.name+"/fragment-aliases-input", fmt.Sprintf("fragment %d of call %d lies inside the caller's input buffer", k, call), wit(call, "fragment_len", len(f)))
 					return
+				}
+			}
+		}
+		// returned fragments own their storage: no two of them (of this or an earlier call) may share a backing array
+		// (appending to one within its capacity would overwrite the other)
+		{
+			var rs []memRange
+			for _, f := range outA {
+				rs = append(rs, rangeOfBytes(f))
+			}
+			lim := len(rs)
+			if lim > 64 {
+				lim = 64 // neighbours are what matters; keep the pairwise check bounded for huge fragment counts
+			}
+			for x := 0; x < len(rs); x++ {
+				for y := x + 1; y < len(rs) && y <= x+lim; y++ {
+					if overlaps(rs[x].lo, rs[x].hi, rs[y].lo, rs[y].hi) {
+						c.Fail("C08/"+kind.name+"/fragments-share-storage", fmt.Sprintf("fragments %d and %d of call %d share a backing array (capacity ranges overlap)", x, y, call), wit(call))
+						return
+					}
 				}
 			}
 		}
